@@ -16,6 +16,7 @@
 #endif
 #include <new>
 #include <stdexcept>
+#include <iterator>
 #include <cmath>
 using namespace vlog;
 
@@ -68,6 +69,21 @@ static int val_of(double d) { if (d != d) return 1002; if (d == 0) return std::s
 template <class E> static E from_code(long v) { return E((int)v); }
 template <> double from_code<double>(long v) { return v == 1000 ? 0.0 : v == 1001 ? -0.0 : v == 1002 ? std::nan("") : (double)v; }
 
+// ---- a single-pass input iterator (copies share the read position, as with std::istream_iterator) ----------------
+template <class E> struct SharedSrc { const std::vector<E> *v; size_t pos; };
+template <class E> struct InIt {
+    typedef std::input_iterator_tag iterator_category; typedef E value_type; typedef std::ptrdiff_t difference_type; typedef const E *pointer; typedef const E &reference;
+    SharedSrc<E> *s; E cur;
+    InIt() : s(0), cur() {}
+    explicit InIt(SharedSrc<E> *s_) : s(s_), cur() { fetch(); }
+    void fetch() { if (s && s->pos < s->v->size()) cur = (*s->v)[s->pos++]; else s = 0; }
+    reference operator*() const { return cur; }
+    InIt &operator++() { fetch(); return *this; }
+    InIt operator++(int) { InIt t = *this; fetch(); return t; }
+    bool operator==(const InIt &o) const { return s == o.s; }
+    bool operator!=(const InIt &o) const { return s != o.s; }
+};
+
 // ---- containers -----------------------------------------------------------------------------------------------
 template <class E> struct DynTraits { typedef igris::vector<E, TrackAlloc<E>> type; static const bool is_static = false; };
 template <class E, size_t N> struct StaTraits { typedef igris::static_vector<E, N> type; static const bool is_static = true; };
@@ -92,7 +108,9 @@ template <class Cn, class E, bool Static> struct Runner {
         else if (name == "CreateFrom") { auto vs = list(t[2]); std::vector<E> src; for (auto v : vs) { src.push_back(from_code<E>(v)); srcv.push_back(v); } a = 0; prep(k);
             if constexpr (Static) { // register the inline storage before the constructor fills it
                 g_blocks.push_back(Block{(char *)c(k).data(), (sizeof(Cn) - sizeof(size_t)) / sizeof(E), sizeof(E), g_next_id, true}); { Ev e("Alloc"); e.i("b", g_next_id).i("n", (sizeof(Cn) - sizeof(size_t)) / sizeof(E)); e.end(); } ++g_next_id; }
-            if (b == 0) { if constexpr (requires { Cn(src.data(), src.data() + src.size()); }) new (&c(k)) Cn(src.data(), src.data() + src.size()); else unsupported(name); }
+            if (b == 2) {   // the range is given by single-pass input iterators
+                if constexpr (Static && requires { Cn(src.data(), src.data() + src.size()); }) { SharedSrc<E> ss{&src, 0}; new (&c(k)) Cn(InIt<E>(&ss), InIt<E>()); } else unsupported(name); }
+            else if (b == 0) { if constexpr (requires { Cn(src.data(), src.data() + src.size()); }) new (&c(k)) Cn(src.data(), src.data() + src.size()); else unsupported(name); }
             else if constexpr (requires { Cn(std::initializer_list<E>{}); }) { // initializer list of the same values (lists of length 0..5)
                 switch (src.size()) { case 0: new (&c(k)) Cn(std::initializer_list<E>{}); break; case 1: new (&c(k)) Cn(std::initializer_list<E>{src[0]}); break; case 2: new (&c(k)) Cn(std::initializer_list<E>{src[0], src[1]}); break;
                     case 3: new (&c(k)) Cn(std::initializer_list<E>{src[0], src[1], src[2]}); break; case 4: new (&c(k)) Cn(std::initializer_list<E>{src[0], src[1], src[2], src[3]}); break; default: new (&c(k)) Cn(std::initializer_list<E>{src[0], src[1], src[2], src[3], src[4]}); break; } }
